@@ -124,7 +124,18 @@
     {"overflowing-literal", "variables x; constraints x<=1e400; end", NULL},
     {"huge-exponent", "variables x; constraints x^99999999999=0; end", NULL},
   };
-  for (const TC& tc : cases) {
+  // variables whose names look like the names the library generates for its own intermediate symbols ("_x_<k>", k = a
+  // process-wide counter): whatever the value of the counter is (below 96), the serialised text must not re-use one of them
+  static string gen_names_text, gen_names_text2;
+  if (gen_names_text.empty()) {
+    string decl, sum; for (int k = 0; k < 96; k++) { decl += (k ? "," : "") + string("_x_") + to_string(k); sum += (k ? "+" : "") + string("_x_") + to_string(k); }
+    gen_names_text = "variables " + decl + "; constraints " + sum + ">=1; _x_0^2-4<=0; end";
+    gen_names_text2 = "variables " + decl + "; minimize _x_3*_x_5; constraints _x_0^2-4<=0; end";
+  }
+  vector<TC> all_cases(cases, cases + sizeof(cases) / sizeof(cases[0]));
+  all_cases.push_back(TC{"variables-named-like-generated-symbols", gen_names_text.c_str(), NULL});
+  all_cases.push_back(TC{"variables-named-like-generated-symbols-with-goal", gen_names_text2.c_str(), NULL});
+  for (const TC& tc : all_cases) {
     if (g_timeouts > MAX_TIMEOUTS) { EMIT("mbxstop too-many-timeouts\n"); break; }
     string text = tc.text; mbx::RefResult R = mbx::read_system(text);
     string valid = "variables x in [0,1]; constraints x^2<=1; end";
@@ -155,20 +166,27 @@
   // ---- mutable constants ("*c = v"): ONE object of the loaded system; after the value is changed through System::constant(name)
   //      the whole system (constraints AND the functions that use the constant) must denote the text written with the new value
   {
-    struct MC { const char* kind; const char* text; const char* name; double val; const char* after; };
+    struct MC { const char* kind; const char* text; const char* name; double val; const char* after; int simpl; };
     static const MC mcs[] = {
+      // (no mutation, name == NULL: the text with mutable constants loaded at simplification level 2 / 3 against the same text
+      //  with plain constants at level 0)
+      {"mutable-constant-range-index-level2", "constants *b[3]=(1;2;3); *B[2][2]=((1,2);(3,4)); variables y[2]; constraints y=b(2:3); y=B(:,2); y(1)=b(2); y'=B(2,:); end", NULL, 0.0,
+                                              "constants b[3]=(1;2;3); B[2][2]=((1,2);(3,4)); variables y[2]; constraints y=b(2:3); y=B(:,2); y(1)=b(2); y'=B(2,:); end", 2},
+      {"mutable-constant-range-index-level3", "constants *b[4]=(1;2;3;4); *B[3][2]=((1,2);(3,4);(5,6)); variables y[2]; constraints y=b(3:4)+b(1:2); y=B(2:3,1); B(1:2,:)*y=b(2:3); end", NULL, 0.0,
+                                              "constants b[4]=(1;2;3;4); B[3][2]=((1,2);(3,4);(5,6)); variables y[2]; constraints y=b(3:4)+b(1:2); y=B(2:3,1); B(1:2,:)*y=b(2:3); end", 3},
+      {"mutable-constant-range-index-level1", "constants *b[3]=(1;2;3); variables y[2]; constraints y=b(1:2); end", NULL, 0.0, "constants b[3]=(1;2;3); variables y[2]; constraints y=b(1:2); end", 1},
       {"mutable-constant-in-function", "constants *c=2; d=5; function g(y) return c*y+d; end variables x; constraints g(x)=0; c*x=1; g(x)-c*x=d; end", "c", 4.0,
-                                       "constants c=4; d=5; function g(y) return c*y+d; end variables x; constraints g(x)=0; c*x=1; g(x)-c*x=d; end"},
+                                       "constants c=4; d=5; function g(y) return c*y+d; end variables x; constraints g(x)=0; c*x=1; g(x)-c*x=d; end", 0},
       {"mutable-constant-in-nested-functions", "constants *c=2; function h(z) return z+c; end function g(y) return h(y)*c; end variables x; minimize g(x)+c; constraints h(g(x))>=c; end", "c", -1.5,
-                                       "constants c=-1.5; function h(z) return z+c; end function g(y) return h(y)*c; end variables x; minimize g(x)+c; constraints h(g(x))>=c; end"},
-      {"mutable-constant-in-constraints-only", "constants *c=1; variables x,y; constraints x+c*y=c; x-y<=c^2; end", "c", 3.0, "constants c=3; variables x,y; constraints x+c*y=c; x-y<=c^2; end"},
+                                       "constants c=-1.5; function h(z) return z+c; end function g(y) return h(y)*c; end variables x; minimize g(x)+c; constraints h(g(x))>=c; end", 0},
+      {"mutable-constant-in-constraints-only", "constants *c=1; variables x,y; constraints x+c*y=c; x-y<=c^2; end", "c", 3.0, "constants c=3; variables x,y; constraints x+c*y=c; x-y<=c^2; end", 0},
       {"mutable-constant-in-loop-and-function", "constants *c=2; function g(y) return y^2-c; end variables x[2]; constraints for i=1:2; g(x(i))+c*i>=0; end end", "c", 0.5,
-                                       "constants c=0.5; function g(y) return y^2-c; end variables x[2]; constraints for i=1:2; g(x(i))+c*i>=0; end end"},
+                                       "constants c=0.5; function g(y) return y^2-c; end variables x[2]; constraints for i=1:2; g(x(i))+c*i>=0; end end", 0},
     };
     for (const MC& mc : mcs) {
       string fa = scratch(".mbx"), fb = scratch(".mbx"); spit(fa, mc.text); spit(fb, mc.after);
       Child c = isolated([&](int fd) { wr(fd, parse_system_file(fb, 0) + "\n");
-                                       wr(fd, guarded([&]() { System s(fa.c_str(), 0); s.constant(mc.name).i() = Interval(mc.val); return sys_dump(s); }) + "\n"); }, 4);
+                                       wr(fd, guarded([&]() { System s(fa.c_str(), mc.simpl); if (mc.name) s.constant(mc.name).i() = Interval(mc.val); return sys_dump(s); }) + "\n"); }, 4);
       vector<string> rr = records(c, 2);
       if (rr[0].compare(0, 7, "parsed ") == 0) { mbx::RefResult P = mbx::read_system(mc.after); string pts = points(r, P.t == mbx::RefResult::ACCEPT ? P.m.nvar() : 3);
         EMIT("mbxsys strict pair:%s %s %s => %s\n", mc.kind, rr[0].substr(7).c_str(), pts.c_str(), rr[1].c_str()); }
